@@ -449,14 +449,15 @@ class G2:
                 v = v2
             n = r.choice([1, 2, 3])
             cs = [self.num(oenv, d - 1) for _ in range(n)]
-            if n > 1 and r.random() < 0.3:
-                cs[-1] = cs[0] if r.random() < 0.5 else f"({cs[0]} * 2.0)"   # the same sub-expression in two columns
+            if r.random() < 0.3:
+                cs.append(cs[0] if r.random() < 0.5 else f"({cs[0]} * 2.0)")   # the same sub-expression in two columns
+                n += 1
             steps.append(["Select", f"lambda {v}: {cs[0]}" if n == 1 else f"lambda {v}: ({', '.join(cs)})"])
         else:
             n = 1 if form == "single" else r.choice([2, 3])
             cols = [self.column(env, d) for _ in range(n)]
             if n > 1 and r.random() < 0.2:
-                cols[-1] = cols[0]   # the same expression as two columns
+                cols.append(cols[0])   # the same expression as two columns (one more column, nothing is dropped)
             if form == "single":
                 steps.append(["Select", f"lambda e: {cols[0]}"])
             elif form == "tuple":
